@@ -117,6 +117,7 @@ def fiber_forms(ctx):
     fi = pkg.func("devices.FIBER")
     it = Interp(pkg, assumptions={"show_progress": False, "input.noise": "none"}, param_classes={"input": "optical_signal"})
     it.run(fi)
+    c08.canonical_operator(it)
     return fi, it
 
 
